@@ -111,6 +111,17 @@ def handle : List String → String
       | some vars => PBoxCommon.showPB (slicing pv lv t vars w)
       | none => "bad-op"
     | _, _, _, _ => "bad-op"
+  | "imc" :: pv :: w :: nrows :: rest =>
+    match parseList pv, parseRat w, parseNat nrows with
+    | some pv, some w, some k =>
+      match (rest.take k).mapM parseList, parseITree 64 (rest.drop k) with
+      | some rows, some (t, more) =>
+        if (rest.take k).length ≠ k then "bad-op" else
+        match parsePBs more with
+        | some vars => PBoxCommon.showPB (imc pv rows t vars w)
+        | none => "bad-op"
+      | _, _ => "bad-op"
+    | _, _, _ => "bad-op"
   | toks =>
     match PBoxCommon.handle toks with
     | "bad-op" => C01.handle toks
